@@ -603,8 +603,9 @@ func gotOffer(c *webClient, id, label string, sdp string, replace string) error 
 		return err
 	}
 
-	// a client can only replace its own streams
-	if replace != "" && getUpConn(c, replace) != nil {
+	// a client can only replace its own streams, and a stream does not
+	// replace itself
+	if replace != "" && replace != id && getUpConn(c, replace) != nil {
 		up.replace = replace
 		delUpConn(c, replace, c.Id(), false)
 	}
